@@ -2606,6 +2606,9 @@ func (s *swamp) CloneAndDeleteExpiredTreasures(howMany int32) ([]treasure.Treasu
 
 	// shift the expired treasures from the swamp
 	shiftedTreasures := s.expirationTimeBeaconASC.ShiftExpired(int(howMany))
+	if verifhook.Enabled {
+		verifhook.Point("shift.selected", len(shiftedTreasures))
+	}
 
 	// delete the shifted treasures from the other indexes
 	for _, d := range shiftedTreasures {
@@ -2891,6 +2894,9 @@ func (s *swamp) deleteHandler(key string, shadowDelete bool) (deletedTreasure tr
 
 	guardID := treasureObj.StartTreasureGuard(true, guard.BodyAuthID)
 	defer treasureObj.ReleaseTreasureGuard(guardID)
+	if verifhook.Enabled {
+		verifhook.Point("del.acquired", key)
+	}
 
 	// Még változtatás előtt lemásoljuk a Treasure-t, hogy egy clone-t készíthessünk róla, hogy a törölt treasure-t minden
 	// adatával együtt vissza tudjuk adni.
